@@ -25,7 +25,13 @@ def whole_input_copied(F, S):
     out = []
     wf = F.fn(VOL + "::WriteFiles", nparams=2)
     ph = F.fn(VOL + "::PrepareHeader", nparams=2)
-    oa = F.fn(VOL + "::OpenAllInputFiles", nparams=2)
+    # the function that opens the inputs: wherever the readers are appended to fileStreamReaders
+    openers = [f for f in F.functions.values() if f.cls == VOL and f.cfg and any(
+        nd["k"] == "CXXMemberCallExpr" and nd.get("fname") in ("push_back", "emplace_back") and "obj" in nd and "fileStreamReaders" in repr(f.term(nd["obj"]))
+        for nd in f.nodes)]
+    if len(openers) != 1:
+        raise AnalysisBroken("VolFile: expected one function appending to fileStreamReaders, found %d" % len(openers))
+    oa = openers[0]
     w = ("var", wf.params[0]["n"], wf.params[0]["d"])
     copies = [nd for nd in wf.nodes if nd["k"] == "CXXMemberCallExpr" and nd.get("fname") == "Write" and len(nd.get("args", [])) == 1
               and (nd.get("targs") or [{}])[0].get("int") is not None]
@@ -58,11 +64,16 @@ def whole_input_copied(F, S):
     else:
         out.append(bad("R-COPYEXT", inst, ph.loc(ph.body), ph.qn, "the size recorded for member i is fileStreamReaders[i]->Length()", fmt_term(sz) if sz else "?"))
     # readers are opened fresh, in list order, and not read or moved before WriteFiles
-    pb = [nd for nd in oa.nodes if nd["k"] == "CXXMemberCallExpr" and nd.get("fname") == "push_back"]
-    loops = [nd for nd in oa.nodes if nd["k"] == "CXXForRangeStmt"]
+    pb = [nd for nd in oa.nodes if nd["k"] == "CXXMemberCallExpr" and nd.get("fname") in ("push_back", "emplace_back") and "fileStreamReaders" in repr(oa.term(nd["obj"]))]
+    loops = [nd for nd in oa.nodes if nd["k"] == "CXXForRangeStmt" and pb and pb[0]["id"] in oa.subtree(nd["id"])]
     good = len(pb) == 1 and len(loops) == 1 and "filesToPack" in repr(oa.term(loops[0]["range"])) and "make_unique" in repr(oa.term(pb[0]["args"][0]))
     moved = []
-    for fn in (ph, oa, F.fn(VOL + "::WriteHeader", nparams=2), F.fn(VOL + "::WriteVolume", nparams=2), F.fn(VOL + "::CreateArchive", nparams=2)):
+    for fn in ({ph.key: ph, oa.key: oa}.values()):
+        for nd in fn.nodes:
+            if nd["k"] == "CXXMemberCallExpr" and nd.get("fname") in ("Read", "ReadPartial", "Seek", "SeekForward", "SeekBackward", "Slice") and "obj" in nd \
+                    and "fileStreamReaders" in repr(fn.term(nd["obj"])):
+                moved.append((fn, nd))
+    for fn in (F.fn(VOL + "::WriteHeader", nparams=2), F.fn(VOL + "::WriteVolume", nparams=2), F.fn(VOL + "::CreateArchive", nparams=2)):
         for nd in fn.nodes:
             if nd["k"] == "CXXMemberCallExpr" and nd.get("fname") in ("Read", "ReadPartial", "Seek", "SeekForward", "SeekBackward", "Slice") and "obj" in nd \
                     and "fileStreamReaders" in repr(fn.term(nd["obj"])):
